@@ -262,6 +262,119 @@ def mk_obs(first, depth, slow, reg_con, allow_rst=True, two_observers=False):
     return make
 
 
+FIRST_ENDS = ["render-raises", "render-unsuccessful", "shutdown", "plainget-same-token", "rereg-same-token", "error", "none"]
+
+
+def mk_first_render(reach):
+    """the registration ends while its first rendering is still running (or through it): render raises / answers unsuccessfully,
+    shutdown, a new request on the same token, a transport error -- at a symbolic instant within the rendering"""
+    import asyncio
+    from vf import stack
+    from vf.simloop import SimLoop
+    from aiocoap.message import Message
+    from aiocoap import resource, error
+    from aiocoap.numbers.types import CON, NON, ACK
+    from aiocoap.numbers.codes import GET, EMPTY, NOT_FOUND
+    stack.configure(ack_timeout=2000, ack_random_factor=1, max_retransmit=1)
+
+    class Obs(resource.ObservableResource):
+        def __init__(self, mode):
+            super().__init__()
+            self.mode = mode
+            self.state = 0
+            self.counts = []
+            self.regs = []
+            self.renders = 0
+
+        async def add_observation(self, request, serverobservation):
+            await super().add_observation(request, serverobservation)
+            rec = [0]
+            self.regs.append(rec)
+            inner = serverobservation._cancellation_callback
+
+            def counted():
+                rec[0] += 1
+                inner()
+            serverobservation._cancellation_callback = counted
+
+        def update_observation_count(self, n):
+            self.counts.append(n)
+
+        async def render_get(self, request):
+            self.renders += 1
+            first = self.renders == 1
+            s = self.state
+            await asyncio.sleep(5)
+            if first and self.mode == "render-raises":
+                raise error.BadRequest("no")
+            if first and self.mode == "render-unsuccessful":
+                return Message(code=NOT_FOUND, payload=b"gone")
+            return Message(payload=b"s%d" % s)
+
+    def h(mi: int, con: bool, t: int) -> None:
+        assert 0 <= mi < len(FIRST_ENDS) and 0 <= t <= 6
+        mode = pick(FIRST_ENDS, mi)
+        with SimLoop() as loop:
+            res = Obs(mode)
+            site = resource.Site()
+            site.add_resource(["o"], res)
+            S = stack.StackS(loop, site)
+            src = stack.R0
+            mids = [500]
+
+            def get(observe):
+                mids[0] += 1
+                m = Message(code=GET, _mtype=CON if con else NON, _mid=mids[0], _token=b"\x09", uri_path=["o"])
+                if observe is not None:
+                    m.opt.observe = observe
+                S.deliver(m.encode(), src)
+            get(0)
+            assert len(res.regs) == 1 and res.counts[-1] == 1
+            loop.advance(t)
+            during = t < 5                 # the first rendering has not returned yet
+            live = 0                       # index of the registration that must be live at the end (None: none)
+            down = False
+            if mode in ("render-raises", "render-unsuccessful"):
+                live = None
+            elif mode == "shutdown":
+                tk = S.shutdown()
+                loop.advance(10)
+                assert tk.done() and tk.exception() is None
+                live, down = None, True
+            elif mode == "plainget-same-token":
+                get(None)
+                live = None
+            elif mode == "rereg-same-token":
+                get(0)
+                live = 1
+            elif mode == "error":
+                S.icmp_error(src)
+                live = None
+            loop.advance(20)
+            # quiesce: acknowledge whatever is open
+            for _ in range(4):
+                for k in [k for k in S.mman._active_exchanges or () if k[0].sockaddr[:2] == src[:2]]:
+                    S.deliver(Message(code=EMPTY, _mtype=ACK, _mid=k[1]).encode(), src)
+                loop.advance(7)
+            assert all(r[0] <= 1 for r in res.regs), "cancellation callback ran twice"
+            assert [i for i, r in enumerate(res.regs) if r[0] == 0] == ([] if live is None else [live]), \
+                "registration that ended during / through its first rendering leaked (cancellation callback not run)"
+            assert res.counts[-1] == (0 if live is None else 1), "observer count must return to its previous value"
+            n0 = len(S.tr.sent)
+            if not down:
+                res.state += 1
+                res.updated_state()
+                loop.advance(20)
+            new = [Message.decode(d) for (d, a, tm) in S.tr.sent[n0:]]
+            if live is None:
+                assert new == [], "notification sent for an ended registration"
+            else:
+                assert [x.payload for x in new if x.opt.observe is not None][-1:] == [b"s1"], "live registration not notified of the latest state"
+            assert loop.exceptions == []
+        assert not reach, "reach"
+    return h
+
+
 def obligations(tier):
     q = tier == "quick"
     depth = 3 if q else 4
@@ -282,6 +395,9 @@ def obligations(tier):
         obs.append(Obligation("observe-two-observers-first-%s" % EV[first], mk_obs(first, depth, False, True, two_observers=True),
                               280 if q else 1500, functions=FUNCS,
                               symbolic={"later events": "%d indices" % (depth - 1)}, concrete={"first event": EV[first], "second observer": "other endpoint, other token, stays registered"}))
+    obs.append(Obligation("observe-ends-during-first-render", mk_first_render, 280 if q else 900, functions=FUNCS,
+                          symbolic={"how it ends": "index over %s" % FIRST_ENDS, "registration type": "CON / NON", "instant": "0..6 ticks into a rendering of 5 ticks"},
+                          stubs=["SimLoop", "FakeDatagramTransport", "integer tuning", "random stubs"]))
     # known finding D7: Reset answering a non-confirmable notification
     obs.append(Obligation("observe-non-rst", mk_obs(0, 2, False, False, allow_rst=True), 120, functions=FUNCS, expect="violated", finding="D7", twin=False,
                           symbolic={"second event": "index (a Reset after the first non-confirmable notification is among them)"},
